@@ -1,11 +1,11 @@
-\* the design AS REPAIRED (notes/fixes/C15-*.patch): the property holds without carve-outs (quick scope)
+\* the design AS REPAIRED (notes/fixes/C15-*.patch): the property holds without carve-outs (thorough scope)
 SPECIFICATION Spec
 CONSTANTS
   Scenarios <- ScenariosDef
   MaxLen = 6
-  MaxC = 1
+  MaxC = 2
   MaxAtoms = 2
-  Shapes = {"one", "chain"}
+  Shapes = {"one", "chain", "prim"}
   ForeignGuardMisread = FALSE
   StrictPositiveMin = FALSE
   RaiseOnConflict = FALSE
